@@ -151,3 +151,95 @@ Lemma w4_facts :
   h_err w4_after = None /\ topo w4_before = [Topo "db" "web" ["l1/web-proxy"]]
   /\ topo (h_cat w4_after) = [Topo "db" "web" ["r1/px"]].
 Proof. vm_compute. repeat split; reflexivity. Qed.
+
+(* ---- witness 5: a node rename takes the instances of OTHER services of the peer with it ----
+   stored:   node a (ID X) with web1 (service web) and api1 (service api)
+   received for web: node b (ID X) with web1 *)
+Definition w5_before : cat :=
+  Cat [Node pa "a" idX 5] [mk_svc "a" "web1" "web" 9; mk_svc "a" "api1" "api" 9] [] [].
+Definition w5_export : list inst := [Inst (Node "" "b" idX 5) (mk_svc "b" "web1" "web" 9) []].
+Definition w5_snap := map (inst_set_peer pa) w5_export.
+Definition w5_after := handle_update_service id_shuffles w5_before pa "web" (Some w5_export).
+
+Lemma w5_facts :
+  wf_b w5_before = true /\ coherent_b pa "web" w5_snap = true /\ h_err w5_after = None
+  /\ svcs (h_cat w5_after) = [mk_svc "b" "web1" "web" 9].
+Proof. vm_compute. repeat split; reflexivity. Qed.
+
+(* ------------------------------------------------------------------ reflection *)
+
+From Verif Require Import Peering.Phase1 Peering.Snapshot.
+
+Lemma nodup_b_spec {A} (eqb : A -> A -> bool) :
+  (forall a b, eqb a b = true <-> a = b) -> forall l, nodup_b eqb l = true -> NoDup l.
+Proof.
+  intros Heq. induction l as [|x l IH]; cbn [nodup_b]; intros H; [constructor|].
+  apply andb_true_iff in H as [H1 H2]. constructor; [|apply IH; exact H2].
+  intros Hin. apply negb_true_iff in H1. rewrite existsb_false_iff in H1.
+  specialize (H1 x Hin). assert (eqb x x = true) by (apply Heq; reflexivity). congruence.
+Qed.
+
+Lemma wf_b_spec c : wf_b c = true -> wf c.
+Proof.
+  unfold wf_b. intros H. apply andb_true_iff in H as [H H3]. apply andb_true_iff in H as [H1 H2].
+  repeat split; unfold keys_nodup; eapply nodup_b_spec; eauto using key_eqb_eq.
+Qed.
+
+Lemma in_pairs {A} (l : list A) a b : In a l -> In b l -> In (a, b) (pairs l).
+Proof.
+  intros Ha Hb. unfold pairs. apply in_flat_map. exists a. split; [exact Ha|]. apply in_map. exact Hb.
+Qed.
+
+Lemma pair_eqb_eq (a b : string * string) : seqb (fst a) (fst b) && seqb (snd a) (snd b) = true <-> a = b.
+Proof.
+  destruct a, b. cbn. rewrite andb_true_iff, !seqb_eq. split; [intros [-> ->]; reflexivity | intros E; injection E; auto].
+Qed.
+
+Lemma coherent_b_spec p sn snap : coherent_b p sn snap = true -> snap_coh p sn snap.
+Proof.
+  unfold coherent_b. intros H.
+  apply andb_true_iff in H as [H P4]. apply andb_true_iff in H as [H P3].
+  apply andb_true_iff in H as [H P2]. apply andb_true_iff in H as [P0 P1].
+  rewrite forallb_forall in P0, P2, P3, P4.
+  assert (U : forall i, In i snap ->
+     (n_peer (i_node i) = p /\ s_peer (i_svc i) = p /\ s_node (i_svc i) = n_name (i_node i)
+      /\ forall k, In k (i_chks i) -> c_peer k = p) /\
+     (s_name (i_svc i) = sn /\ s_id (i_svc i) <> "") /\ NoDup (map c_id (i_chks i)) /\
+     (forall k, In k (i_chks i) -> c_node k = n_name (i_node i) /\ (c_sid k = "" \/ c_sid k = s_id (i_svc i)) /\ c_status k <> 0%N)).
+  { intros i Hi. specialize (P0 i Hi). repeat (apply andb_true_iff in P0 as [P0 ?]).
+    repeat match goal with H : seqb _ _ = true |- _ => apply seqb_eq in H end.
+    match goal with H : negb (seqb _ "") = true |- _ => apply negb_true_iff, seqb_neq in H end.
+    split; [|split; [|split]].
+    - repeat split; auto. intros k Hk.
+      match goal with H : forallb (fun k => seqb (c_peer k) p) _ = true |- _ => rewrite forallb_forall in H; apply seqb_eq, H, Hk end.
+    - auto.
+    - eapply nodup_b_spec; [apply seqb_eq | eassumption].
+    - intros k Hk.
+      match goal with H : forallb (fun k => seqb (c_node k) _ && _ && _) _ = true |- _ => rewrite forallb_forall in H; specialize (H k Hk) end.
+      repeat match goal with H : _ && _ = true |- _ => apply andb_true_iff in H as [? ?] end.
+      repeat split.
+      + apply seqb_eq. assumption.
+      + match goal with H : _ || _ = true |- _ => apply orb_true_iff in H as [H|H]; apply seqb_eq in H; auto end.
+      + match goal with H : negb (N.eqb _ 0) = true |- _ => apply negb_true_iff, N.eqb_neq in H; exact H end. }
+  split.
+  - intros i Hi. apply (U i Hi).
+  - intros i Hi. apply (U i Hi).
+  - eapply nodup_b_spec; [|exact P1]. intros a b. apply pair_eqb_eq.
+  - intros i j Hi Hj E. specialize (P2 (i, j) (in_pairs snap i j Hi Hj)). cbn in P2.
+    apply orb_true_iff in P2 as [P2|P2]; [apply negb_true_iff, seqb_neq in P2; contradiction | apply node_eqb_eq; exact P2].
+  - intros i j Hi Hj E Hne. specialize (P3 (i, j) (in_pairs snap i j Hi Hj)). cbn in P3.
+    apply orb_true_iff in P3 as [P3|P3]; [|apply seqb_eq; exact P3].
+    apply orb_true_iff in P3 as [P3|P3]; [apply negb_true_iff, seqb_neq in P3; contradiction | apply seqb_eq in P3; contradiction].
+  - intros i Hi. apply (U i Hi).
+  - intros i k Hi Hk. apply (U i Hi). exact Hk.
+  - intros i j k Hi Hj E Hk Hs. specialize (P4 (i, j) (in_pairs snap i j Hi Hj)). cbn in P4.
+    apply orb_true_iff in P4 as [P4|P4]; [apply negb_true_iff, seqb_neq in P4; contradiction|].
+    apply andb_true_iff in P4 as [P4 _]. rewrite forallb_forall in P4. specialize (P4 k Hk).
+    apply orb_true_iff in P4 as [P4|P4]; [apply negb_true_iff, seqb_neq in P4; contradiction|].
+    apply existsb_exists in P4 as (k' & Hk' & E'). apply chk_eqb_eq in E'. subst k'. exact Hk'.
+  - intros i j k k' Hi Hj E Hk Hk' Eid. specialize (P4 (i, j) (in_pairs snap i j Hi Hj)). cbn in P4.
+    apply orb_true_iff in P4 as [P4|P4]; [apply negb_true_iff, seqb_neq in P4; contradiction|].
+    apply andb_true_iff in P4 as [_ P4]. rewrite forallb_forall in P4. specialize (P4 k Hk).
+    rewrite forallb_forall in P4. specialize (P4 k' Hk').
+    apply orb_true_iff in P4 as [P4|P4]; [apply negb_true_iff, seqb_neq in P4; contradiction | apply chk_eqb_eq; exact P4].
+Qed.
